@@ -1556,7 +1556,9 @@ func (g *Gen) enumMisuse() {
 func (g *Gen) enumReject() {
 	rng := g.rng
 	w := g.r.W
-	lens := func(n int) []int { return []int{0, 1, n - 1, n + 1, 2 * n, n / 2, 31, 33, 63, 65, 200, 16, 32, 64, 128} }
+	lens := func(n int) []int {
+		return []int{0, 1, n - 1, n + 1, 2 * n, n / 2, 31, 33, 63, 65, 200, 16, 32, 64, 128}
+	}
 	for d := 0; d < g.cfg.EnumDraws; d++ {
 		for _, op := range Alphabet {
 			if !op.Fallible {
